@@ -174,6 +174,24 @@ def numpy0d_mutations(ctx):
   return True
 
 
+class FalsyCallable(object):
+  """A callable that is FALSY: it has a length of 0 (numpy.poly1d of order 0 is one; so is any callable container that is
+  empty).  'if func:' is not a test for 'a function was given'."""
+
+  def __init__(self, f):
+    self._f = f
+    if hasattr(f, "deriv"):
+      self.deriv = f.deriv
+    if hasattr(f, "deriv2"):
+      self.deriv2 = f.deriv2
+
+  def __call__(self, r):
+    return self._f(r)
+
+  def __len__(self):
+    return 0
+
+
 class IntWhenWhole(object):
   """A plain Python callable (no derivatives) that returns an int where its value is a whole number - a capped core
   '100 if r < rc else ...' does - and a float elsewhere."""
@@ -207,6 +225,8 @@ def pair_potentials_api(model, wrap=None):
       f = emit.api_callable(node, model.get("tables"))
       if str(model.get("api_results")).startswith("numpy0d"):
         f = Numpy0d(f, {"numpy0d": "fresh", "numpy0d_int": "int", "numpy0d_cached": "cached"}[model["api_results"]])
+      if model.get("api_results") == "falsy_callable":
+        f = FalsyCallable(f)
       if model.get("api_results") == "int_when_whole":
         f = IntWhenWhole(f)
       if wrap is not None:
@@ -327,6 +347,8 @@ def eam_api_objects(model, wrap=None):
     f = emit.api_callable(node, tables)
     if str(model.get("api_results")).startswith("numpy0d"):
       f = Numpy0d(f, {"numpy0d": "fresh", "numpy0d_int": "int", "numpy0d_cached": "cached"}[model["api_results"]])
+    if model.get("api_results") == "falsy_callable":
+      f = FalsyCallable(f)
     f = wrap(f, tag) if wrap else f
     shared[key] = (f, tag[0])
     return f
